@@ -55,6 +55,9 @@ type c13Exec struct {
 	docs    []c13Doc
 	garbled bool
 	mode    string
+	relay   bool   // the file is laid out with one long physical line outside the documents (c13Layout)
+	padAt   int    // corpus: a YAML comment line of this many bytes in front of the last document
+	layout  string // what c13Layout did
 	data    []byte
 	parity  int // ids of the objects this execution addresses: id%2
 	dir     string
@@ -298,7 +301,7 @@ func c13RunOperatorCase(r *Run, c *Case, init map[int]c13Obj, xs []*c13Exec, sch
 			}
 			c.Op(fmt.Sprintf("doc %s %s %s%s", c13B01(d.valid), c13B01(d.inline), d.desc, xt), "ok")
 		}
-		c.Op(fmt.Sprintf("note execution %s: hook %s, queue q%d, exit %d, %s patch file: %s", x.name, e.hookNames[x.hook], x.queue, x.exit, x.form, string(x.data)), "ok")
+		c.Op(fmt.Sprintf("note execution %s: hook %s, queue q%d, exit %d, %s patch file (%d bytes, longest line %d, layout %s): %s", x.name, e.hookNames[x.hook], x.queue, x.exit, x.form, len(x.data), c13LongestLine(x.data), x.layout, c13Show(x.data)), "ok")
 		xl := c13SplitByParity(lg, ";", c13LogEntryID, x.parity)
 		xc := c13SplitByParity(contents, ";", c13ClusterEntryID, x.parity)
 		c.Op(fmt.Sprintf("hookrun %s %s", x.form, c13B01(x.exit == 0)), fmt.Sprintf("status=%s log=%s cluster=%s", x.status, xl, xc))
@@ -344,6 +347,17 @@ func (x *c13Exec) render(rng *Rng) {
 		x.data = c13RenderJSON(x.docs, x.garbled, rng)
 	} else {
 		x.data = c13RenderYAML(x.docs, x.garbled, rng.Intn(60))
+	}
+	x.layout = "as-rendered"
+	if x.relay {
+		x.data, x.layout = c13Layout(x.data, x.form, rng)
+	}
+	if x.padAt > 0 && x.form == "yaml" {
+		starts := c13DocStarts(x.data, x.form)
+		at := starts[len(starts)-1] - 4 // in front of the "---\n" of the last document
+		pad := "# " + strings.Repeat("-", x.padAt-2) + "\n"
+		x.data = []byte(string(x.data[:at]) + pad + string(x.data[at:]))
+		x.layout = fmt.Sprintf("comment-line-in-front-of-the-separator:%d-bytes:at-document-%d/%d", x.padAt, len(starts), len(starts))
 	}
 }
 
@@ -398,9 +412,13 @@ func c13OperatorRandom(r *Run) func(c *Case, rng *Rng) {
 			if rng.Chance(6) {
 				x.noFile, x.docs, x.garbled, x.mode = true, nil, false, "nothing-written"
 			}
+			// 25%: one long physical line (4 KiB ... 1 MiB) between / next to two documents of the file; long
+			// lines INSIDE a document come with the long values of the table c13Exotics
+			x.relay = !x.noFile && rng.Chance(25)
 			x.render(rng)
 			xs = append(xs, x)
 			c.Note("op-level:stream:" + x.mode)
+			c.Note("op-level:longest-physical-line:" + c13LineClass(c13LongestLine(x.data)))
 			c.Note(fmt.Sprintf("op-level:hook-exit-zero:%v", x.exit == 0))
 			for _, d := range x.docs {
 				if d.valid && d.m["subresource"] == "/status" && d.m["ignoreHookError"] == true {
@@ -479,10 +497,29 @@ func c13OperatorCorpus(r *Run, base int) {
 					{name: "A", queue: 1, parity: 1, form: "yaml", mode: "valid", docs: []c13Doc{create(cmA, c13Obj{1: 1})}},
 					{name: "B", queue: 2, parity: 0, form: "json", mode: "valid", docs: []c13Doc{create(cmB, c13Obj{3: 3}), create(c13Pool[3], c13Obj{1: 4})}}}
 			}, "LA LB WA WB EA EB"},
+		// the physical layout of the file (case numbers 20, 21): one line of the file is longer than 64 KiB
+		{"`jq -c` output: three creates, one JSON document per line, the second one carries a 64 KiB value: all three applied, in order",
+			map[int]c13Obj{},
+			func(rng *Rng) []*c13Exec {
+				return []*c13Exec{{name: "A", queue: 1, parity: 1, form: "json", mode: "valid",
+					docs: []c13Doc{create(cmA, c13Obj{1: 1}), create(c13Pool[2], c13Obj{2: c13LongValue}), create(c13Pool[4], c13Obj{1: 3})}}}
+			}, "LA WA EA"},
+		{"a valid create, a comment line of 70000 bytes, an invalid document: nothing may be applied and the execution fails",
+			map[int]c13Obj{},
+			func(rng *Rng) []*c13Exec {
+				x := &c13Exec{name: "A", queue: 1, parity: 1, form: "yaml", mode: "invalid-after-valid",
+					docs: []c13Doc{create(cmA, c13Obj{1: 1}), c13ApplyFault(create(c13Pool[2], c13Obj{1: 3}), "unknownOperation", rng)}}
+				x.padAt = 70000
+				return []*c13Exec{x}
+			}, "LA WA EA"},
 	}
 	for i, oc := range cases {
 		oc := oc
-		r.One(base+i, func(c *Case, rng *Rng) {
+		idx := base + i
+		if i >= 4 {
+			idx = 20 + i - 4 // 17-19 are taken by other corpus cases
+		}
+		r.One(idx, func(c *Case, rng *Rng) {
 			xs := oc.xs(rng)
 			for _, x := range xs {
 				x.render(rng)
